@@ -46,3 +46,15 @@ def no_panic_judge(expect_fn):
                 return "%s build: %s" % (p, w)
         return None
     return judge
+
+
+def T(eng, n):
+    """Pointee of a reference node, through the engine's interning (use with eng.focus(path))."""
+    if n is None:
+        return None
+    if n.target is not None:
+        return n.target
+    try:
+        return eng.deref(n)
+    except Exception:
+        return None
